@@ -10,7 +10,8 @@ func Harness_C15_publish() {
 	t0, t1 := make(chan vtok, 1), make(chan vtok, 1)
 	tIncompatible := make(chan string, 1)
 	tOther := make(chan vtok, 1)
-	ctx0, c0 := context.WithCancel(context.Background())
+	// subscription 0's context ends by deadline (DeadlineExceeded), subscription 1's by an explicit cancel
+	ctx0, c0 := verifDeadlineCtx(context.Background())
 	ctx1, c1 := context.WithCancel(context.Background())
 	full := [2]bool{verifNondetBool("full0"), verifNondetBool("full1")}
 	dead := [2]bool{verifNondetBool("cancelled0"), verifNondetBool("cancelled1")}
@@ -46,7 +47,8 @@ func Harness_C15_publish() {
 			verifAssert(v == vtok(1), "full_target_untouched")
 		}
 		if !full[i] && dead[i] {
-			verifAssert(len(t) <= 1, "cancelled_subscription_gets_at_most_one")
+			// its context had ended (by cancel or by deadline) before the publish began: not eligible
+			verifAssert(len(t) == 0, "subscription_whose_context_has_ended_receives_nothing")
 		}
 	}
 	verifAssert(len(tIncompatible) == 0, "incompatible_element_type_receives_nothing")
